@@ -620,7 +620,7 @@ class Builder:
         if f == "vsum" and pos == 0: ok = ["bytes"]
         return sorted(ok), sorted(bad)
 
-    def case(self, cid, fname, sig, pbad=0.25, force_ok=False):
+    def case(self, cid, fname, sig, pbad=0.25, force_ok=False, single_bad=False):
         """One concrete call of `sig`; returns (case, expect)."""
         rng = self.rng
         at = arg_types(sig)
@@ -638,7 +638,7 @@ class Builder:
         first_exc = None
         for pos, t in enumerate(at):
             ok, bad = self.classes_for(sig, pos, t)
-            if force_ok or not bad or rng.random() >= pbad:
+            if force_ok or not bad or rng.random() >= pbad or (single_bad and (first_exc or expect)):
                 c = rng.choice(ok)
             else:
                 c = rng.choice(bad)
